@@ -39,4 +39,54 @@ def Flex.prependWin (f : Flex) (a n1 : Nat) : Option Flex :=
       -- `newValues := make(…); copy(newValues, v); copy(newValues[n1:], f.Values)`: old array untouched
       some (f.prepend ((f.mem.drop a).take n1))
 
+/-! ### wave 8 B / seed C14-K: the argument window's CAPACITY
+
+`v = array[a : a+n1 : k]` — a three-index slice expression, `slices.Clip`, a handle taken with a
+clipped capacity and kept across Pops/Shifts (as long as the receiver keeps its array, such a handle
+IS the window `(a, n1, k)` of the current array).  The slice expression needs `a + n1 ≤ k ≤ cap`.
+What `Prepend` does with `v` depends on the window only through the alias test; the test is a
+PARAMETER `ov` here so that the theorem says which tests keep `Prepend` a sequence operation for
+every `(offset, length, capacity)`. -/
+
+/-- an alias test as the model sees it: the argument is the window `(a, n1, k)` of an array of
+capacity `c`, the receiver's `Values` is `array[:nc]` -/
+abbrev OvTest := (a n1 k nc c : Nat) → Bool
+
+/-- the code's `overlaps(v, f.Values)`: address ranges of the ELEMENTS `[a, a+n1)` and `[0, nc)`;
+the capacities of the two slices play no role -/
+def ovCode : OvTest := fun a n1 _ nc _ => overlapsWin a n1 nc
+
+/-- the `math/big` alias trick (change class of seed C14-K): both capacities non-zero and the two
+slices END at the same address when extended to their capacity: `&v[:cap(v)][cap(v)-1]` is cell
+`k-1`, `&f.Values[:cap][cap-1]` is cell `c-1` -/
+def ovCapEnd : OvTest := fun a _ k _ c => decide (a < k ∧ 0 < c ∧ k = c)
+
+/-- a test is ADEQUATE when it reports every non-empty window that meets the shifted region `[0, nc)`,
+whatever the window's capacity -/
+def OvTest.Adequate (ov : OvTest) : Prop :=
+  ∀ a n1 k nc c, a + n1 ≤ k → k ≤ c → nc ≤ c → 0 < n1 → a < nc → ov a n1 k nc c = true
+
+/-- `f.Prepend(f.Values[a : a+n1 : k]...)` with alias test `ov` (`none` = the slice expression panics) -/
+def Flex.prependWinG (ov : OvTest) (f : Flex) (a n1 k : Nat) : Option Flex :=
+  if a + n1 > k ∨ k > f.cap then none
+  else
+    let nc := n1 + f.len
+    if f.cap ≥ nc then
+      let v :=
+        if ov a n1 k nc f.cap then (f.mem.drop a).take n1       -- copied BEFORE the shift
+        else ((f.shifted n1).drop a).take n1                     -- not copied: read after the shift
+      some (f.writeFront n1 v)
+    else
+      some (f.prepend ((f.mem.drop a).take n1))
+
+/-- the code that exists -/
+def Flex.prependWin3 (f : Flex) (a n1 k : Nat) : Option Flex := f.prependWinG ovCode a n1 k
+
+/-- `f.Append(f.Values[a : a+n1 : k]...)`: `append` moves the argument with `memmove` (within capacity:
+into the cells `[len, len+n1)`, which may be cells of the window itself) or copies it from the
+untouched old array after growing — in both cases the appended cells are the window as it was -/
+def Flex.appendWin3 (grow : Nat → Nat → Nat) (f : Flex) (a n1 k : Nat) : Option Flex :=
+  if a + n1 > k ∨ k > f.cap then none
+  else some (f.append grow ((f.mem.drop a).take n1))
+
 end Golib.C14
